@@ -152,8 +152,8 @@ class C09(CheckBase):
         self.kinds = sorted(k for k in ops_mod.OPS if not k.startswith('canary.'))
         self.kind_w = [self.weights[k] for k in self.kinds]
         self.thorough_runs = self.N_RANDOM_THOROUGH + 2 * self.n_pairs() + 8 * len(self.kinds) + \
-            4 * self.N_PREEMPT_POINTS * len(self.kinds)
-        self.quick_runs = 900 + 2 * len(self.kinds)
+            4 * self.N_PREEMPT_POINTS * len(self.kinds) + self.N_PREEMPT_POINTS * len(self.kinds)
+        self.quick_runs = 800 + 3 * len(self.kinds)
         self.wrapped_locks = wrap_module_locks([m for n, m in sorted(sys.modules.items())
                                                 if m is not None and (n == 'geodepy' or n.startswith('geodepy.'))])
         self.sut_codes = sut_code_objects([m for n, m in sorted(sys.modules.items())
@@ -351,12 +351,28 @@ class C09(CheckBase):
                 'opcode_salt': None, 'scribble': False, 'focus': [k], 'pair_sweep': True,
                 'granularity': 'instr' if variant & 2 else 'line'}
 
+    def _cancel_trace(self, rng, kind_index, frac, kind_of_fault):
+        """Systematic interruption sweep: a call of every op kind is cancelled (or hit by MemoryError) at the
+        line lying `frac` of the way through it; then the same call is made again un-faulted, followed by the
+        same kind with other arguments.  Whatever the interrupted call left behind (a half-updated constant,
+        a flag, a memo, an altered argument) shows in the barrier / snapshots / O2 or in the later results."""
+        k = self.kinds[kind_index % len(self.kinds)]
+        a1 = ops_mod.OPS[k][1](rng, self.ctx)
+        ops = [{'id': 0, 'kind': k, 'args': a1, 'thread': 0}, {'id': 1, 'kind': k, 'args': a1, 'thread': 0, 'repeat_of': 0},
+               {'id': 2, 'kind': k, 'args': ops_mod.OPS[k][1](rng, self.ctx), 'thread': 0}]
+        return {'property': 'C09', 'threads': 1, 'ops': ops, 'shared': [],
+                'faults': [{'kind': kind_of_fault, 'op': 0, 'frac': round(frac, 5)}],
+                'sched': {'mode': 'rr'}, 'switches': [], 'opcode_salt': None, 'scribble': False, 'focus': [k],
+                'pair_sweep': True, 'granularity': 'line'}
+
     def generate(self, rng, i, tier):
         K = len(self.kinds)
         if i < K:
             return self._same_kind_trace(rng, i)
         if i < 2 * K:
             return self._preempt_trace(rng, i - K, rng.random(), (i - K) % 4)
+        if i < 3 * K:
+            return self._cancel_trace(rng, i - 2 * K, rng.random(), 'cancel' if i % 3 else 'oom')
         if tier == 'thorough' and i >= self.N_RANDOM_THOROUGH:
             j = i - self.N_RANDOM_THOROUGH
             if j < 2 * self.n_pairs():
@@ -365,8 +381,12 @@ class C09(CheckBase):
             if j < 8 * K:
                 return self._same_kind_trace(rng, j)
             j -= 8 * K
+            if j < 4 * self.N_PREEMPT_POINTS * K:
+                point, rest = j % self.N_PREEMPT_POINTS, j // self.N_PREEMPT_POINTS
+                return self._preempt_trace(rng, rest // 4, (point + 0.5) / self.N_PREEMPT_POINTS, rest % 4)
+            j -= 4 * self.N_PREEMPT_POINTS * K
             point, rest = j % self.N_PREEMPT_POINTS, j // self.N_PREEMPT_POINTS
-            return self._preempt_trace(rng, rest // 4, (point + 0.5) / self.N_PREEMPT_POINTS, rest % 4)
+            return self._cancel_trace(rng, rest, (point + 0.5) / self.N_PREEMPT_POINTS, 'cancel' if point % 4 else 'oom')
         cls = rng.randrange(10)
         if cls < 2:
             T = 1
